@@ -33,16 +33,44 @@ var c12PosRe = regexp.MustCompile(` at line (\d+) and column (\d+)$`)
 // refPositions: reference (line,col) of each token of the option-free stream.
 func refPositions(text string, base []tokRec) [][2]int {
 	runes := []rune(text)
+	// coordinates after reading characters 0..p, for every p, in one pass (same rule as forwardLC)
+	lc := make([][2]int, len(runes)+1)
+	at := func(i int) rune {
+		if i < 0 || i >= len(runes) {
+			return -1
+		}
+		return runes[i]
+	}
+	line, col := 1, 0
+	for i, ch := range runes {
+		if ch == '\n' {
+			line++
+			col = 0
+		} else if ch == '\r' {
+			if at(i-1) != '\n' && at(i+1) != '\n' {
+				line++
+				col = 0
+			}
+		} else {
+			col++
+		}
+		lc[i] = [2]int{line, col}
+	}
+	lc[len(runes)] = [2]int{line, col}
 	out := make([][2]int, len(base))
 	off := 0
 	for i, t := range base {
 		if t.typ == tokenizers.Eof {
-			l, c := forwardLC(runes, len(runes)-1)
-			out[i] = [2]int{l, c + 1}
+			if len(runes) == 0 {
+				out[i] = [2]int{1, 1}
+			} else {
+				out[i] = [2]int{lc[len(runes)-1][0], lc[len(runes)-1][1] + 1}
+			}
 			continue
 		}
-		l, c := forwardLC(runes, off)
-		out[i] = [2]int{l, c}
+		if off < len(lc) {
+			out[i] = lc[off]
+		}
 		off += len([]rune(t.val))
 	}
 	return out
@@ -244,7 +272,7 @@ func init() {
 	fw.Register(&fw.Check{
 		ID:    "C12",
 		Level: "model_checking",
-		Rule: "(also: 80 boundary characters in every short context and every pattern of <=2 characters repeated up to 1000 times) 4 tokenizers x every string up to the length bound over an alphabet with LF, CR, a quote, a comment opener, a multi-character symbol and an unknown character x option sets (quick: none, each single option, the parser's set, two combinations, all on; thorough: all 128); " +
+		Rule: "(also: 121 boundary characters in every short context and every pattern of <=2 characters repeated up to 1000 times, three (thorough five) patterns repeated 65535..65537 times) 4 tokenizers x every string up to the length bound over an alphabet with LF, CR, a quote, a comment opener, a multi-character symbol and an unknown character x option sets (quick: none, each single option, the parser's set, two combinations, all on; thorough: all 128); " +
 			"oracle: token k of the option-free stream sits at the forward-scan coordinates (independent rule model, cross-checked with a fresh real scanner) of offset sum(len(values before)); tokens under options are aligned with their originals through the C15 transformer and must carry the same position; Eof one column past the last character; " +
 			"positions quoted in expression syntax errors (short strings, and every sequence of <=4 (thorough 5) grammar tokens written on one line and one token per line) must be the position of a token that does not lie inside the part of the input a reference recogniser consumes as a valid beginning of an expression, and for UNKNOWN_SYMBOL exactly the position of the first offending token; non-trivial = (multi-line input, option set) with >=3 tokens",
 		Assume: []string{"C04 and C15 hold for the (input, option set) (otherwise skipped and counted)", "coordinates as defined by C11's forward scan"},
@@ -288,6 +316,23 @@ func init() {
 					},
 					Repr: func(i int64) string {
 						return fmt.Sprintf("%s tokenizer, input %q repeated %d times, %d option sets", kind, stringByIndex(ca, 1+i%npat), counts[i/npat], len(sets))
+					}})
+			}
+			// lines and columns beyond 2^16: a few patterns repeated 65535..65537 times, option-free and parser options
+			for _, kind := range tokKinds {
+				kind := kind
+				// (stepping back over a line break makes the scanner rescan from the start, so inputs with
+				// 65537 lines of tokens cost minutes: thorough tier only)
+				pats := []string{"a", "a ", "\r\n"}
+				if tier == "thorough" {
+					pats = append(pats, "a\n", "1,")
+				}
+				sp = append(sp, fw.Space{Name: "huge-" + kind, N: int64(len(pats) * len(hugeCounts)), Timeout: 300e9,
+					Run: func(c *fw.Ctx, i int64) {
+						c12Run(c, kind, pumped(pats[int(i)%len(pats)], hugeCounts[int(i)/len(pats)])+"<=x", []int{0, optSkipWhitespaces | optSkipComments | optSkipEof | optDecode})
+					},
+					Repr: func(i int64) string {
+						return fmt.Sprintf("%s tokenizer, input %q repeated %d times then \"<=x\"", kind, pats[int(i)%len(pats)], hugeCounts[int(i)/len(pats)])
 					}})
 			}
 			// positions quoted in syntax errors: every sequence of grammar tokens, on one line and one token per line
